@@ -293,3 +293,45 @@ package core
 //@ props C10 C15
 //@ pure
 //@ ensures result.Slot == slot && result.Type == DutyInfoSync
+
+// ---- C01: component stitching (core.Wire) ---------------------------------------------------
+// every subscription call receives exactly the designated function of the designated component
+
+//@ func Wire
+//@ props C01
+//@ loop 1 invariant true
+//@ ensures ncalls(w.SchedulerSubscribeDuties) == 2
+//@ callreq w.SchedulerRegisterFetcherFetchOnly: a1 == w.FetcherFetchOnly
+//@ ensures ncalls(w.SchedulerRegisterFetcherFetchOnly) == 1
+//@ callreq w.FetcherSubscribe: a1 == w.ConsensusPropose
+//@ ensures ncalls(w.FetcherSubscribe) == 1
+//@ callreq w.FetcherRegisterAggSigDB: a1 == w.AggSigDBAwait
+//@ ensures ncalls(w.FetcherRegisterAggSigDB) == 1
+//@ callreq w.FetcherRegisterAwaitAttData: a1 == w.DutyDBAwaitAttestation
+//@ ensures ncalls(w.FetcherRegisterAwaitAttData) == 1
+//@ callreq w.ConsensusSubscribe: a1 == w.DutyDBStore
+//@ ensures ncalls(w.ConsensusSubscribe) == 1
+//@ callreq w.VAPIRegisterAwaitProposal: a1 == w.DutyDBAwaitProposal
+//@ ensures ncalls(w.VAPIRegisterAwaitProposal) == 1
+//@ callreq w.VAPIRegisterAwaitAttestation: a1 == w.DutyDBAwaitAttestation
+//@ ensures ncalls(w.VAPIRegisterAwaitAttestation) == 1
+//@ callreq w.VAPIRegisterAwaitSyncContribution: a1 == w.DutyDBAwaitSyncContribution
+//@ ensures ncalls(w.VAPIRegisterAwaitSyncContribution) == 1
+//@ callreq w.VAPIRegisterGetDutyDefinition: a1 == w.SchedulerGetDutyDefinition
+//@ ensures ncalls(w.VAPIRegisterGetDutyDefinition) == 1
+//@ callreq w.VAPIRegisterPubKeyByAttestation: a1 == w.DutyDBPubKeyByAttestation
+//@ ensures ncalls(w.VAPIRegisterPubKeyByAttestation) == 1
+//@ callreq w.VAPIRegisterAwaitAggAttestation: a1 == w.DutyDBAwaitAggAttestation
+//@ ensures ncalls(w.VAPIRegisterAwaitAggAttestation) == 1
+//@ callreq w.VAPIRegisterAwaitAggSigDB: a1 == w.AggSigDBAwait
+//@ ensures ncalls(w.VAPIRegisterAwaitAggSigDB) == 1
+//@ callreq w.VAPISubscribe: a1 == w.ParSigDBStoreInternal
+//@ ensures ncalls(w.VAPISubscribe) == 1
+//@ callreq w.ParSigDBSubscribeInternal: a1 == w.ParSigExBroadcast
+//@ ensures ncalls(w.ParSigDBSubscribeInternal) == 1
+//@ callreq w.ParSigExSubscribe: a1 == w.ParSigDBStoreExternal
+//@ ensures ncalls(w.ParSigExSubscribe) == 1
+//@ callreq w.ParSigDBSubscribeThreshold: a1 == w.SigAggAggregate
+//@ ensures ncalls(w.ParSigDBSubscribeThreshold) == 1
+//@ callreq w.SigAggSubscribe: a1 == w.AggSigDBStore || a1 == w.BroadcasterBroadcast
+//@ ensures ncalls(w.SigAggSubscribe) == 2
